@@ -168,14 +168,14 @@ func (i Int32) BitwiseXor(other Value) (Int32, Value) {
 
 func (i Int32) LeftBitshiftInt32(other Int32) Int32 {
 	if other < 0 {
-		return i >> -other
+		return i >> uint64(-other)
 	}
 	return i << other
 }
 
 func (i Int32) RightBitshiftInt32(other Int32) Int32 {
 	if other < 0 {
-		return i << -other
+		return i << uint64(-other)
 	}
 	return i >> other
 }
